@@ -41,7 +41,7 @@ func findRegistrations(P *Program) []*registration {
 				if cs.Static.Pkg != P.Avro {
 					continue
 				}
-				T := staticTypeOfReflectType(cs.Common.Args[0])
+				T := newContractEnv(P).reflectTypeStatic(cs.Common.Args[0])
 				if T == nil {
 					continue
 				}
